@@ -34,7 +34,7 @@ def rand_load(rng: random.Random, depth: int) -> str:
     if r < 0.6:
         return rand_load(rng, depth - 1) + "." + rng.choice(["x", "attr", "y"])
     if r < 0.8:
-        return rand_load(rng, depth - 1) + "[" + rng.choice(["0", "1", "'k'", rng.choice(NAMES)]) + "]"
+        return rand_load(rng, depth - 1) + "[" + rng.choice(["0", "1", "'k'", "'infinite'", rng.choice(NAMES)]) + "]"
     nargs = rng.randint(0, 2)
     return rand_load(rng, depth - 1) + "(" + ", ".join(rand_load(rng, depth - 2) for _ in range(nargs)) + ")"
 
@@ -46,7 +46,7 @@ def rand_target(rng: random.Random, depth: int) -> str:
     if r < 0.5:
         return rand_load(rng, depth - 1) + "." + rng.choice(["x", "attr"])
     if r < 0.7:
-        return rand_load(rng, depth - 1) + "[" + rng.choice(["0", "'k'", rng.choice(NAMES)]) + "]"
+        return rand_load(rng, depth - 1) + "[" + rng.choice(["0", "'k'", "'info'", rng.choice(NAMES)]) + "]"
     n = rng.randint(1, 3)
     elems = [rand_target(rng, depth - 1) for _ in range(n)]
     if rng.random() < 0.35:
